@@ -7,6 +7,11 @@ Tie:    the `translate` harness engine runs translate_pk on generated miniscript
         the text form and definite -> derived keys; results, error classes and the translator's call log, and
         iter_pk / for_each_key, are compared with the model INSIDE Coq (Tables/TranslateCasesGen.v generated,
         Tables/TranslateCasesCheck.v by vm_compute).
+        Extension: `TH` lines — translate_pk with NON-identity hash translators (injective / constant / failing on a hash /
+        failing on a hash kind, one call counter over all translator methods) on miniscripts and descriptors containing
+        hashes and on every concrete / semantic policy, and the policies' keys / for_each_key / for_any_key — are compared
+        with Ms/TranslateHashModel.v and Ms/TranslatePolModel.v inside Coq (Tables/TranslateHashCasesGen.v generated,
+        Tables/TranslateHashCasesCheck.v by vm_compute; theorems C20_pol_* and C20_trh_* in Properties/C20.v).
 Oracle: independent of the model: the result's dump must be the original dump with the key tokens substituted
         (computed here on the token level), the script must be the byte-level substitution of the original
         script (computed in the harness with rust-bitcoin only), types are kept, a failure must have a cause
